@@ -33,7 +33,7 @@ func c14LGen(t *rapid.T) interface{} {
 	c.Files = lib.Ints(t, n, n, 0, 400, "files")
 	nq := lib.IntN(t, 2, 5, "nqueries")
 	for i := 0; i < nq; i++ {
-		c.Queries = append(c.Queries, c15Query{Kind: lib.PickStr(t, []string{"file", "edited", "edited", "concat"}, "kind"), File: lib.IntN(t, 0, 40, "file"), File2: lib.IntN(t, 0, 40, "file2"), Edits: lib.Ints(t, 1, 4, 0, 3000, "edits")})
+		c.Queries = append(c.Queries, c15Query{Kind: lib.PickStr(t, []string{"file", "edited", "edited", "concat", "snippet"}, "kind"), File: lib.IntN(t, 0, 40, "file"), File2: lib.IntN(t, 0, 40, "file2"), Arg: lib.IntN(t, 0, 40, "arg"), Edits: lib.Ints(t, 1, 4, 0, 3000, "edits")})
 	}
 	g := lib.PickInt(t, []int{2, 4, 8, 16}, "goroutines")
 	for i := 0; i < g; i++ {
@@ -76,6 +76,10 @@ func c14LCheck(ci interface{}) lib.Outcome {
 	wants := make([]want, len(c.Queries))
 	for i, q := range c.Queries {
 		texts[i], _ = c15QueryText(q, small)
+		if q.Kind == "snippet" {
+			// far shorter than every known text: passes the common-word filter but has no candidate at all
+			texts[i] = []string{"this software license", "terms of the work", "version code", "original rights software"}[q.Arg%4]
+		}
 		wants[i].multi = strings.Join(renderMatches(ref.MultipleMatch(texts[i], false)), " ")
 		wants[i].multiH = strings.Join(renderMatches(ref.MultipleMatch(texts[i], true)), " ")
 		if m := ref.NearestMatch(texts[i]); m != nil {
@@ -130,6 +134,6 @@ func c14LCheck(ci interface{}) lib.Outcome {
 
 func TestVerif_C14_License(t *testing.T) {
 	lib.Run(t, lib.Spec{ID: "C14", Part: "license",
-		Rule: "License built from an in-process archive of 2-15 license files <= 2.5 KB; 2-16 goroutines released by one barrier, each issuing 1-3 of MultipleMatch (both header modes) / NearestMatch over 2-5 queries (files, edited files, concatenations); built with -race; results compared with a second License built from the same archive and queried sequentially; non-trivial = at least 2 goroutines",
+		Rule: "License built from an in-process archive of 2-15 license files <= 2.5 KB; 2-16 goroutines released by one barrier, each issuing 1-3 of MultipleMatch (both header modes) / NearestMatch over 2-5 queries (files, edited files, concatenations, snippets too short to have any candidate); built with -race; results compared with a second License built from the same archive and queried sequentially; non-trivial = at least 2 goroutines",
 		New:  func() interface{} { return &c14LCase{} }, Gen: c14LGen, Check: c14LCheck})
 }
